@@ -44,7 +44,7 @@ INVS = ("Isolation", "TypeOK", "Owned", "Complete")
 NONVAC = [("ShallowPayload", "NoBadObs"), ("ShallowPayload", "CallerIntact"), ("ShallowPayload", "HoldersIntact"),
           ("MuxNoClone", "NoBadObs"), ("MuxNoClone", "CallerIntact"), ("MuxNoClone", "HoldersIntact"),
           ("AsyncNoClone", "NoBadObs"), ("AsyncNoClone", "HoldersIntact"),
-          ("DropDup", "NoBadObs"), ("DropID", "NoBadObs"), ("DropRetain", "NoBadObs")]
+          ("DropDup", "NoBadObs"), ("DropID", "NoBadObs"), ("DropRetain", "NoBadObs"), ("SwapFlags", "NoBadObs")]
 
 
 def tset(xs):
